@@ -87,7 +87,7 @@ func (o *UntypedRequestBinder) Bind(request *http.Request, routeParams RoutePara
 		}
 
 		if binder.validator != nil {
-			rr := binder.validator.Validate(target.Interface())
+			rr := binder.validator.Validate(validatedValue(target))
 			if rr != nil && rr.HasErrors() {
 				result = append(result, rr.AsError())
 			}
@@ -103,6 +103,25 @@ func (o *UntypedRequestBinder) Bind(request *http.Request, routeParams RoutePara
 	}
 
 	return nil
+}
+
+// validatedValue is the bound value as the validators expect it: they validate string values
+// as plain strings, so values of registered string formats that are named string types
+// (strfmt.UUID, strfmt.Email, ...) are handed over as their text.
+func validatedValue(target reflect.Value) interface{} {
+	stringType := reflect.TypeOf("")
+	switch {
+	case target.Kind() == reflect.String && target.Type() != stringType:
+		return target.String()
+	case target.Kind() == reflect.Slice && target.Type().Elem().Kind() == reflect.String && target.Type().Elem() != stringType:
+		texts := make([]string, target.Len())
+		for i := range texts {
+			texts[i] = target.Index(i).String()
+		}
+		return texts
+	default:
+		return target.Interface()
+	}
 }
 
 // SetLogger allows for injecting a logger to catch debug entries.
